@@ -117,5 +117,11 @@ CHECKS = {
         "text": "TLC checks the code-shaped k-d tree for every palette (multiset) of <= 4 (thorough 5) points on a 3x3 grid and on the 2x2x2 cube against every query: the search result is at minimal distance and is the indexed colour. Real lookups on palettes of 1..512 colours (random, duplicated and collinear clusters, tiny grids, the crate's LCG palette; sizes around 256/257/512) with random queries and neighbours of palette points, and real quantisations (cropped views incl. small crops of large parents, k in {1,2,7,8,9,16,255,256,1000}, both dither settings, alpha 0/128/255 over two backgrounds) are judged: palette size within 1..max(k,8), index image of the same size with valid entries, nearest colour per pixel without dithering, exact reproduction when the distinct colours fit k and the view is below the sampling threshold.",
         "note": "Octree insertion/pruning is judged only through these end-to-end bounds (no code-shaped octree model yet).",
     },
+    "C09": {
+        "level": "exploration",
+        "technique": "TLA+ reference flow of cell sequences (Printable / NoWrap); real Text layout+render and writer adapters driven with seeded inputs inside sentinel canvases; TLC judge",
+        "text": "Seeded cell sequences (narrow, wide and zero-width characters, newlines, tabs, glyphs with fallback text incl. wide fallbacks, images of 1..3 x 1..2 cells) are laid out by Text for every width 1..12, both wrap modes and both glyph-capability settings and rendered into a sub-view of exactly the reported size inside a sentinel canvas: TLC requires the row-major read-back to equal Flow!Printable (every printable unit once, in order) or Flow!NoWrap (only units beyond the right edge dropped) and nothing outside the sub-view to change. UTF-8 text, controls (incl. CR) and SGR sequences are written through TerminalWriter, utf8_writer and tty_writer into plain, offset, strided and transposed sub-views whole, byte-wise, in 2- and 3-byte pieces and randomly cut: the canvases must be identical and the surroundings untouched.",
+        "note": "Seeded random generation (1 200 quick / 40 000 thorough cases per clause), not exhaustive.",
+    },
 }
 
